@@ -412,7 +412,7 @@ theorem parseCss_safe (token : Item) (st : FState) (Q : Node → FState → Prop
   · exact FSafe.pure (hq _ st2 trivial hi2 (by omega))
   · apply FSafe.bind
     apply parseQuotedExpr_safe hz pf hlex hi2
-    intro e
+    intro e hpe
     exact FSafe.pure (hq _ st2 trivial hi2 (by omega))
 
 omit hN hwf hlex in
@@ -501,7 +501,7 @@ theorem parseCallHead_safe (fuel : Nat) (st : FState) (Q : Bytes × Bool × Opti
           · exact FSafe.pure (hq _ _ hi3 (by omega))
           · apply FSafe.bind
             apply parseQuotedExpr_safe hz pf hlex hi3
-            intro e
+            intro e hpe
             exact FSafe.pure (hq _ _ hi3 (by omega))
         · exact FSafe.pure (hq _ _ hi3 (by omega))
 
